@@ -107,6 +107,7 @@ mod tests {
     fn sc(plan: Plan) -> Scenario {
         Scenario {
             guarded: false,
+            via: Via::Wire,
             cfg: Cfg { mtu: 1500, lo_mtu: 65536, send_cap: 65536, recv_cap: 65536, retx_threshold: 3, retx_max: 5 },
             topo: Topo::CrossV4,
             bind_wild: true,
